@@ -513,7 +513,7 @@ pub fn frames_via_parser(frames: &[crate::refmodel::wire::AFrame]) -> Result<Vec
     if frames.is_empty() {
         return Ok(Vec::new());
     }
-    let r = crate::refmodel::wire::AResponse { frames: frames.to_vec(), error: None, form: crate::refmodel::wire::Form::List };
+    let r = crate::refmodel::wire::AResponse { frames: frames.to_vec(), error: None, form: crate::refmodel::wire::Form::List, partial: None };
     let mut rs = parse_all(&r.encode())?;
     if rs.len() != 1 {
         return Err(format!("expected one response, got {}", rs.len()));
